@@ -3,7 +3,7 @@
  *
  * Packet streams come from the FROZEN multistream / projection encoders (ref_ build).  For every (layout, mapping variant, mode,
  * signal level, decoder rate) a twin decoder without gain is run through the op sequence
- *       packets 0..np-1, one concealed frame (NULL), packet np-1 again, packet 0 again
+ *       packets 0..np-1, one concealed frame (NULL), OPUS_RESET_STATE, packet np-1 again, packet 0 again
  * and, for every gain plan (constant gains, gain switched on / off / changed before op 2), a float, a 16-bit and a 24-bit decoder with
  * the plan applied through opus_multistream_decoder_ctl / opus_projection_decoder_ctl.
  * Oracle per decode call (statement only):
@@ -89,7 +89,7 @@ static int mk(anydec *d,const msstream *m,int fs,int v,int *nch_out,unsigned cha
 static void unmk(anydec *d){ if(d->ms) opus_multistream_decoder_destroy(d->ms); if(d->pj) opus_projection_decoder_destroy(d->pj); d->ms=NULL; d->pj=NULL; }
 #define DCTL(d,req) ((d)->proj? opus_projection_decoder_ctl((d)->pj,req) : opus_multistream_decoder_ctl((d)->ms,req))
 
-typedef struct { const unsigned char *d; int len; int plc; } op_t;
+typedef struct { const unsigned char *d; int len; int plc; int reset; } op_t;
 typedef struct { int ret[MAXOP]; opus_uint32 rng[MAXOP]; int dur[MAXOP]; float *f[MAXOP]; opus_int16 *s[MAXOP]; opus_int32 *t[MAXOP]; } dec_out;
 static void out_free(dec_out *o,int n){ int i; for(i=0;i<n;i++){ free(o->f[i]); free(o->s[i]); free(o->t[i]); o->f[i]=NULL; o->s[i]=NULL; o->t[i]=NULL; } }
 
@@ -104,6 +104,9 @@ static int run_dec(const msstream *m,const op_t *op,int nop,int fs,int v,int fmt
          e2=DCTL(&d,OPUS_SET_GAIN(32768)); e3=DCTL(&d,OPUS_SET_GAIN(-32769)); gg=-99999; DCTL(&d,OPUS_GET_GAIN(&gg)); MC_INC(c_rej);
          if(e2!=OPUS_BAD_ARG||e3!=OPUS_BAD_ARG||gg!=gains[i]) mc_fail("msgain:out_of_range_gain_not_rejected_cleanly","%s: OPUS_SET_GAIN(32768) -> %d, OPUS_SET_GAIN(-32769) -> %d, OPUS_GET_GAIN then reads %d (set %d)",what,e2,e3,gg,gains[i]);
          prev=gains[i]; }
+      if(op[i].reset){ int e=DCTL(&d,OPUS_RESET_STATE), g2=-99999; DCTL(&d,OPUS_GET_GAIN(&g2));
+         if(e!=OPUS_OK||g2!=gains[i]) mc_fail("msgain:reset_state_changed_gain_setting","%s op %d: OPUS_RESET_STATE returned %d, OPUS_GET_GAIN then reads %d (gain in force %d)",what,i,e,g2,gains[i]);
+         o->ret[i]=0; lastdur=fs/50; MC_INC(c_trans); continue; }
       mc_case(fmt==0?"msgain_decode_float":fmt==1?"msgain_decode16":"msgain_decode24","%s op %d gain %d len %d plc %d",what,i,gains[i],op[i].len,op[i].plc);
       if(fmt==0){ o->f[i]=malloc(sizeof(float)*n); r= d.proj? opus_projection_decode_float(d.pj,op[i].d,op[i].len,o->f[i],fsz,0) : opus_multistream_decode_float(d.ms,op[i].d,op[i].len,o->f[i],fsz,0); }
       else if(fmt==1){ o->s[i]=malloc(sizeof(opus_int16)*n); r= d.proj? opus_projection_decode(d.pj,op[i].d,op[i].len,o->s[i],fsz,0) : opus_multistream_decode(d.ms,op[i].d,op[i].len,o->s[i],fsz,0); }
@@ -147,7 +150,7 @@ static void check_run(const msstream *m,const op_t *op,int nop,int fs,int nch,co
          if(sample_budget>0&&abs(g)>1){ sample_budget--; mc_sample("%s gain %d: G=%.9g (10^(g/5120)=%.9g) fits every sample of every channel of %d decode calls exactly; counts/ranges/durations equal the twin's",what,g,G,ex,nop); } }
    }
    { int ever_out=0; double ptol=0.0, p24=0.0;
-     for(i=0;i<nop&&!m->proj;i++){ int n=a0->ret[i]*nch, in=1; const float *b; float am=0; if(a0->ret[i]<=0||bf->ret[i]!=a0->ret[i]||b16->ret[i]!=a0->ret[i]||b24->ret[i]!=a0->ret[i]){ ever_out=1; continue; }
+     for(i=0;i<nop&&!m->proj;i++){ int n=a0->ret[i]*nch, in=1; const float *b; float am=0; if(op[i].reset) continue; if(a0->ret[i]<=0||bf->ret[i]!=a0->ret[i]||b16->ret[i]!=a0->ret[i]||b24->ret[i]!=a0->ret[i]){ ever_out=1; continue; }
       b=bf->f[i]; MC_ADD(c_samples,n);
       for(j=0;j<n;j++){ if(!(fabsf(b[j])<=1.f)) in=0; if(fabsf(b[j])>am) am=fabsf(b[j]); }
       if(!in) ever_out=1;
@@ -179,7 +182,8 @@ static long long sat32ll(long long v){ return v>2147483647LL?2147483647LL:v<-214
 static void check_proj_model(const msstream *m,int nop,int nch,const int *gains,const dec_out *xs,const dec_out *bf,const dec_out *b16,const dec_out *b24,const char *what){
    int i,j,c,k,nin=m->nsc_in,ever_out=0; short M[16][16];
    for(k=0;k<nin;k++) for(c=0;c<nch;c++){ int ix=nch*k+c; M[c][k]=(short)(m->matrix[2*ix]|(m->matrix[2*ix+1]<<8)); }
-   for(i=0;i<nop;i++){ int n=bf->ret[i]; if(n<=0||xs->ret[i]!=n||b16->ret[i]!=n||b24->ret[i]!=n){ ever_out=1; continue; }
+   for(i=0;i<nop;i++){ int n=bf->ret[i]; if(n==0&&xs->ret[i]==0&&b16->ret[i]==0&&b24->ret[i]==0) continue;   /* the reset op */
+      if(n<=0||xs->ret[i]!=n||b16->ret[i]!=n||b24->ret[i]!=n){ ever_out=1; continue; }
       /* the 16-bit entry point soft-clips every stream before mixing: its model applies while no stream sample has left [-1,1] since creation */
       for(j=0;j<n*nin&&!ever_out;j++) if(!(fabsf(xs->f[i][j])<=1.f)) ever_out=1;
       if(!ever_out) MC_INC(c_inr16);
@@ -200,10 +204,11 @@ static void check_proj_model(const msstream *m,int nop,int nch,const int *gains,
 
 static int FSD[5]={48000,16000,8000,24000,12000}, nFSD=2; static int (*PLAN)[2]; static int nPLAN;
 static void item(long it,void *ctx){
-   int si=(int)(it/(nFSD*2)), fi=(int)(it/2%nFSD), v=(int)(it%2), fs=FSD[fi], nch=0,nch2=0,i,r,nop=0; msstream *m=&MS[si]; op_t op[MAXOP]; dec_out a0,bf,b16,b24; int zero[MAXOP],gains[MAXOP]; char what[260]; unsigned char map[16],mapx[16]; (void)ctx;
+   int si=(int)(it/(nFSD*2)), fi=(int)(it/2%nFSD), v=(int)(it%2), fs=FSD[fi], nch=0,nch2=0,i,r,nop=0; msstream *m=&MS[si]; op_t op[MAXOP]={{0}}; dec_out a0,bf,b16,b24; int zero[MAXOP],gains[MAXOP]; char what[260]; unsigned char map[16],mapx[16]; (void)ctx;
    if(m->proj&&v) return;
    for(i=0;i<m->np;i++){ op[nop].d=m->pk[i]; op[nop].len=m->len[i]; op[nop].plc=0; nop++; }
    op[nop].d=NULL; op[nop].len=0; op[nop].plc=1; nop++;
+   op[nop].d=NULL; op[nop].len=0; op[nop].plc=0; op[nop].reset=1; nop++;      /* OPUS_RESET_STATE: the gain is a setting and stays */
    op[nop].d=m->pk[m->np-1]; op[nop].len=m->len[m->np-1]; op[nop].plc=0; nop++;
    op[nop].d=m->pk[0]; op[nop].len=m->len[0]; op[nop].plc=0; nop++;
    memset(zero,0,sizeof zero);
